@@ -52,12 +52,16 @@ def ty_py(t) -> str:
     if k == 'n':
         return "None"
     if k == 'C':
-        return f"C{t[1]}"
+        return cname(t[1])
     if k == 'U':
         return "Union[" + ", ".join(ty_py(x) for x in t[1]) + "]"
     if k == 'T':
         return "Tuple[" + ", ".join(ty_py(x) for x in t[1]) + "]" if t[1] else "Tuple[()]"
     raise ValueError(t)
+
+
+def cname(c: int) -> str:
+    return "Exception" if c == 0 else f"C{c}"
 
 
 def ty_tok(t) -> list[str]:
@@ -98,7 +102,7 @@ OPS = {'+': '+', '-': '-', '*': '*', '=': '==', '<': '<'}
 
 
 def cref_py(k) -> str:
-    return {'ki': 'int', 'kb': 'bool', 'ks': 'str'}.get(k[0]) or f"C{k[1]}"
+    return {'ki': 'int', 'kb': 'bool', 'ks': 'str'}.get(k[0]) or cname(k[1])
 
 
 def expr_py(e) -> str:
@@ -114,7 +118,7 @@ def expr_py(e) -> str:
     if k == 'S':
         return repr(e[1])
     if k == 'new':
-        return f"C{e[1]}(" + ", ".join(expr_py(a) for a in e[2]) + ")"
+        return f"{cname(e[1])}(" + ", ".join(expr_py(a) for a in e[2]) + ")"
     if k == 'attr':
         return f"{expr_py(e[1])}.a{e[2]}"
     if k == 'cm':
@@ -191,6 +195,7 @@ class Emit:
     def __init__(self) -> None:
         self.lines: list[str] = []
         self.seen: set[int] = set()
+        self.except_of: dict[int, int] = {}
 
     def line(self, s: str) -> int:
         self.lines.append(s)
@@ -230,7 +235,48 @@ class Emit:
             return ['lab', str(n), 'ex'] + expr_tok(s[1], n)
         if k == 'wh':
             n = self.line(f"{ind}while {expr_py(s[1])}:")
-            return ['lab', str(n), 'wh'] + expr_tok(s[1], n) + self.block(s[2], ind + "    ")
+            c = expr_tok(s[1], n)
+            b = self.block(s[2], ind + "    ")
+            els = s[3] if len(s) > 3 else []
+            if els:
+                self.line(f"{ind}else:")
+            return ['lab', str(n), 'wh'] + c + b + (self.block(els, ind + "    ") if els else ['pass'])
+        if k == 'for':
+            it = f"range({expr_py(s[3])})" if s[2] else expr_py(s[3])
+            n = self.line(f"{ind}for {var_py(s[1])} in {it}:")
+            c = expr_tok(s[3], n)
+            self.seen.add(s[1])
+            b = self.block(s[4], ind + "    ")
+            if s[5]:
+                self.line(f"{ind}else:")
+            return ['lab', str(n), 'for', str(s[1]), '1' if s[2] else '0'] + c + b + (self.block(s[5], ind + "    ") if s[5] else ['pass'])
+        if k == 'brk':
+            n = self.line(f"{ind}break")
+            return ['lab', str(n), 'brk']
+        if k == 'cont':
+            n = self.line(f"{ind}continue")
+            return ['lab', str(n), 'cont']
+        if k == 'raise':
+            n = self.line(f"{ind}raise {cname(s[1])}(" + ", ".join(expr_py(a) for a in s[2]) + ")")
+            return ['lab', str(n), 'raise', str(s[1]), str(len(s[2]))] + [t for a in s[2] for t in expr_tok(a, n)]
+        if k == 'try':
+            n = self.line(f"{ind}try:")
+            b = self.block(s[1], ind + "    ")
+            ne = self.line(f"{ind}except {cname(s[2])}" + (f" as {var_py(s[3])}" if s[3] is not None else "") + ":")
+            self.except_of[n] = ne
+            if s[3] is not None:
+                self.seen.add(s[3])
+            h = self.block(s[4], ind + "    ")
+            if s[5]:
+                self.line(f"{ind}else:")
+            e = self.block(s[5], ind + "    ") if s[5] else ['pass']
+            return ['lab', str(n), 'try'] + b + [str(s[2])] + (['xs', str(s[3])] if s[3] is not None else ['xn']) + h + e
+        if k == 'fin':
+            n = self.line(f"{ind}try:")
+            b = self.block(s[1], ind + "    ")
+            self.line(f"{ind}finally:")
+            f = self.block(s[2], ind + "    ")
+            return ['lab', str(n), 'fin'] + b + f
         if k == 'sif':
             n = self.line(f"{ind}{'elif' if elif_ else 'if'} {expr_py(s[1])}:")
             c = expr_tok(s[1], n)
@@ -263,7 +309,11 @@ class Emit:
         self.line("from typing import Optional, Union, Tuple")
         toks = ['prog', str(len(p['classes']))]
         for c in p['classes']:
-            bases = ", ".join(f"C{b}" for b in c['bases'])
+            if c['id'] == 0:
+                c['_line'], c['_end'] = 0, 0
+                toks += ['cls', '0', '0', '1', '0', '0', '0']
+                continue
+            bases = ", ".join(cname(b) for b in c['bases'])
             n = self.line(f"class C{c['id']}" + (f"({bases})" if bases else "") + ":")
             c['_line'] = n
             for a, t in c['fields']:
@@ -289,7 +339,10 @@ class Emit:
 
 
 def emit(p: dict) -> tuple[str, list[str]]:
-    return Emit().prog(p)
+    e = Emit()
+    r = e.prog(p)
+    p['_except_of'] = e.except_of       # try line -> line of its except clause (mypy reports handler-class errors there)
+    return r
 
 
 def defs_of(p: dict) -> list[tuple[str, int, int]]:
@@ -356,7 +409,7 @@ def val_py(v) -> str:
     if k == 't':
         return "(" + ", ".join(val_py(x) for x in v[1]) + ("," if len(v[1]) == 1 else "") + ")"
     if k == 'o':
-        return f"C{v[1]}(" + ", ".join(val_py(x) for _, x in v[2]) + ")"
+        return f"{cname(v[1])}(" + ", ".join(val_py(x) for _, x in v[2]) + ")"
     raise ValueError(v)
 
 
@@ -461,6 +514,8 @@ def parse_mypy_type(s: str):
             return NONE
         if name == "Never":
             return ('U', [])
+        if name == "Exception":
+            return ('C', 0)
         mm = re.fullmatch(r"C(\d+)", name)
         if mm:
             return ('C', int(mm.group(1)))
@@ -568,6 +623,7 @@ def canon(v, depth=0):
     if isinstance(v, str): return ["s", v]
     if isinstance(v, tuple): return ["t", [canon(x, depth + 1) for x in v]]
     name = type(v).__name__
+    if type(v) is Exception: return ["o", 0, []]
     if name[:1] == "C" and name[1:].isdigit() and type(v).__module__ == "__prog__":
         return ["o", int(name[1:]), [[int(a[1:]), canon(x, depth + 1)] for a, x in vars(v).items()]]
     return ["?", repr(type(v))]
@@ -614,6 +670,9 @@ for item in job["items"]:
             sys.settrace(None)
             n = type(e).__name__
             if isinstance(e, NameError): n = "NameError"
+            if type(e) is Exception or (n[:1] == "C" and n[1:].isdigit()):
+                r["uval"] = canon(e)
+                n = "User"
             r["exc"] = n
             r["msg"] = str(e)[:200]
             tb = e.__traceback__
@@ -769,7 +828,7 @@ class Gen:
     # ---- types
     def rand_ty(self, depth: int = 1, none_ok: bool = True):
         r = self.r
-        cs = [('C', c['id']) for c in self.p['classes']]
+        cs = [('C', c['id']) for c in self.p['classes'] if c['id'] != 0 and not c.get('exc')]
         base = [INT, INT, STR, BOOL] + cs
         k = r.random()
         if k < 0.5 or depth == 0:
@@ -817,6 +876,24 @@ class Gen:
                 elif t[0] == 'U' and NONE in t[1]:
                     cd['fields'][j] = (a, mku([x for x in t[1] if x != NONE]))
 
+    def exc_classes(self) -> None:
+        """the modelled builtin Exception (class 0) and one or two user exception classes"""
+        r = self.r
+        self.p['classes'].insert(0, {'id': 0, 'bases': [], 'mro': [0], 'own': [], 'fields': [], 'methods': [], 'exc': True})
+        top = max(c['id'] for c in self.p['classes'])
+        prev = 0
+        for i in range(top + 1, top + 1 + r.randint(1, 2)):
+            own = []
+            if r.random() < 0.5:
+                self.nfield += 1
+                own.append((self.nfield, r.choice([INT, STR])))
+            base = prev if r.random() < 0.5 else 0
+            mro = [i] + class_by_id(self.p, base)['mro']
+            cd = {'id': i, 'bases': [base], 'mro': mro, 'own': own, 'fields': [], 'methods': [], 'exc': True}
+            self.p['classes'].append(cd)
+            cd['fields'] = self.all_fields(cd)
+            prev = i
+
     def mro_for(self, i: int, bases: list[int]) -> list[int] | None:
         ms = [class_by_id(self.p, b)['mro'] for b in bases]
         m = c3(ms, bases)
@@ -834,6 +911,8 @@ class Gen:
     def methods(self) -> None:
         r = self.r
         for cd in self.p['classes']:
+            if cd.get('exc'):
+                continue
             inherited: dict[int, dict] = {}
             for c in cd['mro'][1:]:
                 for m, fd in class_by_id(self.p, c)['methods']:
@@ -852,7 +931,7 @@ class Gen:
     # ---- functions
     def function(self, params: list, ret, self_cls: int | None, calls: bool) -> dict:
         ctx = {'decl': dict(params), 'bel': dict(params), 'ro': set(), 'next': len(params) + 1, 'ret': ret, 'calls': calls,
-               'tested': set()}
+               'tested': set(), 'inloop': False}
         if self_cls is not None:
             ctx['decl'][0] = ctx['bel'][0] = ('C', self_cls)
             ctx['ro'].add(0)
@@ -899,8 +978,14 @@ class Gen:
                 return [('as', x, e)]
         if k < 0.80 and depth > 0:
             return [self.if_stmt(ctx, depth)]
-        if k < 0.88 and depth > 0 and self.loops:
+        if k < 0.84 and depth > 0 and self.loops:
             return self.while_stmt(ctx, depth)
+        if k < 0.87 and depth > 0 and self.loops:
+            return self.for_stmt(ctx, depth)
+        if k < 0.91 and depth > 0 and self.loops:
+            return self.try_stmt(ctx, depth)
+        if k < 0.925 and self.loops and any(c.get('exc') for c in self.p['classes']):
+            return [self.raise_stmt(ctx)]
         if k < 0.93:
             c, tn, _ = self.cond(ctx)
             ctx['bel'].update(tn)
@@ -968,11 +1053,90 @@ class Gen:
             c2, tn, _ = self.cond(ctx)
             c = ('and', c, c2)
         cb = self.sub_ctx(ctx, tn)
-        body = [('as', n, ('bin', '+', ('v', n), ('I', 1)))] + self.block(cb, r.randint(1, 4), depth - 1)
+        cb['inloop'] = True
+        body = [('as', n, ('bin', '+', ('v', n), ('I', 1)))] + self.block(cb, r.randint(1, 4), depth - 1) + self.jump_tail(cb)
         ctx['next'] = max(ctx['next'], cb['next'])
         for x in ctx['bel']:
             ctx['bel'][x] = ctx['decl'][x]
-        return pre + [('wh', c, body)]
+        els: list = []
+        if r.random() < 0.3:
+            ce = self.sub_ctx(ctx, {})
+            els = self.block(ce, r.randint(1, 2), depth - 1)
+            ctx['next'] = max(ctx['next'], ce['next'])
+        return pre + [('wh', c, body, els)]
+
+    def reset_beliefs(self, ctx: dict) -> None:
+        for x in ctx['bel']:
+            ctx['bel'][x] = ctx['decl'][x]
+        ctx['tested'] = set()
+
+    def jump_tail(self, cb: dict) -> list:
+        """optionally `if cond: break/continue` at the end of a loop body"""
+        r = self.r
+        if r.random() < 0.5:
+            return []
+        self.reset_beliefs(cb)
+        c, _, _ = self.cond(cb)
+        return [('sif', c, [(r.choice(['brk', 'cont']),)], [])]
+
+    def for_stmt(self, ctx: dict, depth: int) -> list:
+        r = self.r
+        self.reset_beliefs(ctx)
+        x = self.fresh(ctx)
+        if r.random() < 0.6:
+            it_ty, rng, e = INT, True, self.expr(ctx, INT, 1)
+        else:
+            it_ty = r.choice([INT, STR, BOOL])
+            rng, e = False, ('tup', [self.expr(ctx, it_ty, 1) for _ in range(r.randint(1, 3))])
+        cb = self.sub_ctx(ctx, {})
+        cb['inloop'] = True
+        cb['decl'][x] = cb['bel'][x] = it_ty
+        cb['ro'].add(x)
+        body = self.block(cb, r.randint(1, 3), depth - 1) + self.jump_tail(cb)
+        ctx['next'] = max(ctx['next'], cb['next'])
+        els: list = []
+        if r.random() < 0.4:
+            ce = self.sub_ctx(ctx, {})
+            els = self.block(ce, r.randint(1, 2), depth - 1)
+            ctx['next'] = max(ctx['next'], ce['next'])
+        self.reset_beliefs(ctx)
+        return [('for', x, rng, e, body, els)]
+
+    def raise_stmt(self, ctx: dict):
+        c = self.r.choice([k for k in self.p['classes'] if k.get('exc')])
+        return ('raise', c['id'], [self.expr(ctx, ft, 1) for _, ft in c['fields']])
+
+    def try_stmt(self, ctx: dict, depth: int) -> list:
+        r = self.r
+        self.reset_beliefs(ctx)
+        cb = self.sub_ctx(ctx, {})
+        body = self.block(cb, r.randint(1, 3), depth - 1)
+        if r.random() < 0.6:
+            body.insert(r.randrange(len(body) + 1), ('sif', self.cond(self.sub_ctx(ctx, {}))[0], [self.raise_stmt(ctx)], []))
+        ctx['next'] = max(ctx['next'], cb['next'])
+        c = r.choice([k for k in self.p['classes'] if k.get('exc')])
+        ch = self.sub_ctx(ctx, {})
+        x = None
+        if r.random() < 0.6:
+            x = self.fresh(ch)
+            ch['decl'][x] = ch['bel'][x] = ('C', c['id'])
+            ch['ro'].add(x)
+        hb = self.block(ch, r.randint(1, 2), depth - 1)
+        ctx['next'] = max(ctx['next'], ch['next'])
+        els: list = []
+        if r.random() < 0.4:
+            ce = self.sub_ctx(ctx, {})
+            els = self.block(ce, r.randint(1, 2), depth - 1)
+            ctx['next'] = max(ctx['next'], ce['next'])
+        out: Any = ('try', body, c['id'], x, hb, els)
+        if r.random() < 0.35:
+            cf = self.sub_ctx(ctx, {})
+            cf['inloop'] = False
+            fb = self.block(cf, r.randint(1, 2), 0)
+            ctx['next'] = max(ctx['next'], cf['next'])
+            out = ('fin', [out], fb)
+        self.reset_beliefs(ctx)
+        return [out]
 
     # ---- conditions: (expr, beliefs if true, beliefs if false)
     def cond(self, ctx: dict, depth: int = 1):
@@ -1143,6 +1307,8 @@ class Gen:
 
     def program(self) -> dict:
         self.classes()
+        if self.loops:
+            self.exc_classes()
         self.methods()
         for i in range(1, self.r.randint(2, 4) + 1):
             params = [(k + 1, self.rand_ty()) for k in range(self.r.randint(1, 3))]
@@ -1177,6 +1343,7 @@ class Gen:
 def strip_private(p: dict) -> dict:
     """JSON-able copy of a program without the printer's line annotations"""
     q = copy.deepcopy(p)
+    q.pop('_except_of', None)
     for c in q['classes']:
         for k in [k for k in c if k.startswith('_')]:
             del c[k]
@@ -1303,7 +1470,15 @@ def map_prog(p: dict, fe=None, fs=None) -> dict:
             elif k == 'sif':
                 s = (k, ex(s[1]), blk(s[2]), blk(s[3]))
             elif k == 'wh':
-                s = (k, ex(s[1]), blk(s[2]))
+                s = (k, ex(s[1]), blk(s[2]), blk(s[3]) if len(s) > 3 else [])
+            elif k == 'for':
+                s = (k, s[1], s[2], ex(s[3]), blk(s[4]), blk(s[5]))
+            elif k == 'raise':
+                s = (k, s[1], [ex(a) for a in s[2]])
+            elif k == 'try':
+                s = (k, blk(s[1]), s[2], s[3], blk(s[4]), blk(s[5]))
+            elif k == 'fin':
+                s = (k, blk(s[1]), blk(s[2]))
             r = fs(s) if fs else s
             out += r if isinstance(r, list) else [r]
         return out
@@ -1494,7 +1669,7 @@ def minipy_stage(ctx: vlib.Ctx, exe: str, progs: list[tuple[str, dict, list]], t
                     l = int(model_defs[i][1:])
                     if l != dlo and l != 0 and derrs:
                         stats["error_lines_compared"] += 1
-                        if derrs[0] != l:
+                        if derrs[0] != l and derrs[0] != p.get('_except_of', {}).get(l):
                             ctx.broke("C", "error line", f"{name} {defs[i][0]}: model first error at line {l}, mypy at {derrs[0]}",
                                       {"src": mods[m]})
         if accepted_model:
@@ -1556,6 +1731,8 @@ def minipy_stage(ctx: vlib.Ctx, exe: str, progs: list[tuple[str, dict, list]], t
             if r.get("timeout"):
                 continue
             py = ("V " + val_canon(r["ok"])) if "ok" in r and r["ok"][0] != "?" else ("E " + r.get("exc", "?"))
+            if r.get("exc") == "User":
+                py = "E User " + val_canon(r["uval"])
             # (b) evaluator vs CPython
             if mo == "F":
                 stats["runs_out_of_fuel"] += 1
